@@ -25,7 +25,7 @@ def faults_for(kind):
 def cases(tier, rng):
     out = []
     def add(**kw):
-        d = {"id": len(out) + 1, "rel": "link", "kind": "pid", "fault": "cut", "when": "after", "obs": 1, "call": False, "pool": 2}
+        d = {"id": len(out) + 1, "rel": "link", "kind": "pid", "fault": "cut", "when": "after", "obs": 1, "call": False, "pool": 2, "more": []}
         d.update(kw)
         # every other case: the requester is descheduled between sending its request and waiting for the result
         d["slowreq"] = d["when"] == "after" and len(out) % 2 == 0
@@ -35,6 +35,13 @@ def cases(tier, rng):
             for fault in faults_for(kind):
                 add(rel=rel, kind=kind, fault=fault, when="after", obs=rng.choice([1, 2, 3]), pool=rng.choice([1, 2, 3]),
                     call=(fault in ("cut", "stop") and kind in ("pid", "node") and (tier == "thorough" or rel == "link" and kind == "pid")))
+    # one consumer with relations on several targets of the node that goes away
+    for rel in ("link", "monitor"):
+        for fault in ("cut", "stop"):
+            add(rel=rel, kind="pid", more=["name", "node"], fault=fault, when="after", obs=2, pool=rng.choice([1, 2, 3]))
+            add(rel=rel, kind="alias", more=["event", "pid", "name", "node"], fault=fault, when="after", obs=1, pool=2)
+            ks = rng.sample(KINDS, 3)
+            add(rel=rel, kind=ks[0], more=ks[1:], fault=fault, when="after", obs=rng.choice([1, 2]), pool=rng.choice([1, 2]))
     # the fault while the request / the reply is on its way
     whens = ["midreq", "midreply"]
     for rel in ("link", "monitor"):
